@@ -7,6 +7,7 @@ package main
 
 import (
 	"fmt"
+	"strings"
 	"time"
 
 	accountsv1 "cosmossdk.io/x/accounts/v1"
@@ -209,6 +210,20 @@ func banHistory(e *Env, h int) bool {
 			return &swaptypes.MsgSwapExactAmountIn{Sender: A(f), InterfaceProvider: A(3), Route: swaptypes.Route{DenomIn: d, DenomOut: out,
 				Strategy: &swaptypes.Route_Pool{Pool: &swaptypes.RoutePool{PoolId: pool}}}, AmountIn: sdkmath.NewInt(a), MinAmountOut: sdkmath.OneInt()}
 		}},
+		// routes that touch no pool (no pool-side send check runs): from a denom to itself through a series / a parallel
+		// without members; the interface fee would still be sent from the sender to the provider.  Invalid for EVERY denom.
+		{"swap_nopool_series_in", func(f int, d string, a int64) sdk.Msg {
+			return &swaptypes.MsgSwapExactAmountIn{Sender: A(f), InterfaceProvider: A(3), Route: swaptypes.Route{DenomIn: d, DenomOut: d,
+				Strategy: &swaptypes.Route_Series{Series: &swaptypes.RouteSeries{}}}, AmountIn: sdkmath.NewInt(a), MinAmountOut: sdkmath.OneInt()}
+		}},
+		{"swap_nopool_series_out", func(f int, d string, a int64) sdk.Msg {
+			return &swaptypes.MsgSwapExactAmountOut{Sender: A(f), InterfaceProvider: A(3), Route: swaptypes.Route{DenomIn: d, DenomOut: d,
+				Strategy: &swaptypes.Route_Series{Series: &swaptypes.RouteSeries{}}}, AmountOut: sdkmath.NewInt(a), MaxAmountIn: sdkmath.NewInt(2 * a)}
+		}},
+		{"swap_nopool_parallel_in", func(f int, d string, a int64) sdk.Msg {
+			return &swaptypes.MsgSwapExactAmountIn{Sender: A(f), InterfaceProvider: A(3), Route: swaptypes.Route{DenomIn: d, DenomOut: d,
+				Strategy: &swaptypes.Route_Parallel{Parallel: &swaptypes.RouteParallel{}}}, AmountIn: sdkmath.NewInt(a), MinAmountOut: sdkmath.OneInt()}
+		}},
 	}
 	for _, at := range attempts {
 		for _, d := range []string{"uvrise", share, "uaaa"} {
@@ -242,7 +257,9 @@ func banHistory(e *Env, h int) bool {
 			e.Obs("%s", cls)
 			e.Stat(fmt.Sprintf("%s.%s.%s", at.kind, dn, cls))
 			e.Oracle("no_panic", cls != "panic", "kind=%s denom=%s", at.kind, dn)
-			if d == "uaaa" {
+			if strings.HasPrefix(at.kind, "swap_nopool") {
+				e.Oracle("ban_"+at.kind, cls == "err" && pre == post, "denom=%s from=a%d amt=%d cls=%s", dn, from, amt, cls)
+			} else if d == "uaaa" {
 				e.Oracle("control_accepted", cls == "ok" && pre != post, "kind=%s amt=%d err=%v", at.kind, amt, err)
 			} else {
 				e.Oracle("ban_"+at.kind, cls == "err" && pre == post, "denom=%s from=a%d amt=%d cls=%s", dn, from, amt, cls)
